@@ -3,7 +3,8 @@
 // One primary and three more real volume servers (real VolumeServer handlers via
 // the verif constructor, separate Stores in temp dirs, each behind its own
 // net/http server on a 127.0.0.1:0 listener), a fake master answering
-// /dir/lookup, a fake replica that answers 500 and a closed port.  The client
+// /dir/lookup, a fake replica that answers 500 and one that drops every
+// connection.  The client
 // request goes to the primary's real PostHandler / DeleteHandler, which run the
 // real topology.ReplicatedWrite / ReplicatedDelete (getWritableRemoteReplications
 // -> operation.Lookup against the fake master, distributedOperation,
@@ -485,11 +486,20 @@ func main() {
 		w.WriteHeader(500)
 		w.Write([]byte(`{"error":"injected failure"}`))
 	}))
-	// a replica that is down
+	// a replica that is down: every connection is closed at once (the port stays ours, so
+	// no parallel shard can be listening on it)
 	dlis, err := net.Listen("tcp", "127.0.0.1:0")
 	hx.Must(err)
 	down := dlis.Addr().String()
-	dlis.Close()
+	go func() {
+		for {
+			c, err := dlis.Accept()
+			if err != nil {
+				return
+			}
+			c.Close()
+		}
+	}()
 
 	scens := []*scenario{
 		{name: "one-replica", vid: 1, locs: []string{P.addr, A.addr}, real: []*server{P, A}},
